@@ -27,7 +27,7 @@ Open Scope Z_scope.
 (* ---------------------------------------------------------------- (1) the include loader *)
 
 (* the repaired loader terminates on every finite file system, cyclic or not *)
-Theorem C14_load_terminates : forall fs root, Loader.load (fuel_for fs) fs root <> LOutOfFuel.
+Theorem C14_load_terminates : forall fs root, LoaderM.load (fuel_for fs) fs root <> LOutOfFuel.
 Proof. exact load_terminates. Qed.
 Print Assumptions C14_load_terminates.
 
@@ -49,13 +49,13 @@ Proof. exact pinned_diverges. Qed.
 Print Assumptions C14_cycle_diverges_pinned_general.
 
 Theorem C14_cycle_is_error :
-  forall fs S root, closed fs S -> S root -> exists e, Loader.load (fuel_for fs) fs root = LErr e.
+  forall fs S root, closed fs S -> S root -> exists e, LoaderM.load (fuel_for fs) fs root = LErr e.
 Proof. exact cycle_is_error. Qed.
 Print Assumptions C14_cycle_is_error.
 
 (* a diamond is not a cycle: the shared file is loaded once per including file *)
 Theorem C14_diamond_is_not_a_cycle :
-  forall d, Loader.load (fuel_for (fs_diamond d)) (fs_diamond d) [[97]] = LOk [d; d].
+  forall d, LoaderM.load (fuel_for (fs_diamond d)) (fs_diamond d) [[97]] = LOk [d; d].
 Proof. exact diamond_loads_twice. Qed.
 Print Assumptions C14_diamond_is_not_a_cycle.
 
@@ -63,19 +63,19 @@ Print Assumptions C14_diamond_is_not_a_cycle.
    whatever the fuel *)
 Theorem C14_included_error_fails_all :
   forall fs root p, reach fs root p -> (lookup fs p = None \/ lookup fs p = Some FBad) ->
-  forall f ds, Loader.load f fs root <> LOk ds.
+  forall f ds, LoaderM.load f fs root <> LOk ds.
 Proof. exact included_error_fails_all. Qed.
 Print Assumptions C14_included_error_fails_all.
 
 Theorem C14_missing_file_fails :
-  forall fs root f, lookup fs root = None -> Loader.load (S f) fs root = LErr (EMissing root).
+  forall fs root f, lookup fs root = None -> LoaderM.load (S f) fs root = LErr (EMissing root).
 Proof. exact missing_root_fails. Qed.
 Print Assumptions C14_missing_file_fails.
 
 (* nothing is dropped: every directive of every reachable file is handed to the command *)
 Theorem C14_included_directive_loaded :
   forall fs root p items d, reach fs root p -> lookup fs p = Some (FOk items) -> In (IDir d) items ->
-  forall f ds, Loader.load f fs root = LOk ds -> In d ds.
+  forall f ds, LoaderM.load f fs root = LOk ds -> In d ds.
 Proof. exact included_directive_loaded. Qed.
 Print Assumptions C14_included_directive_loaded.
 
